@@ -2,6 +2,7 @@ package gosym
 
 import (
 	"fmt"
+	"os"
 	"go/types"
 	"sort"
 	"strings"
@@ -140,6 +141,7 @@ func NewEngine(prog *ssa.Program, opt Options, harness string) *Engine {
 		funIDs:    map[string]uint32{},
 	}
 	e.sol.Harness = harness
+	e.sol.Incremental = os.Getenv("VERIF_INCREMENTAL") != "0"
 	if tp := prog.ImportedPackage("time"); tp != nil {
 		if o := tp.Pkg.Scope().Lookup("Time"); o != nil {
 			e.timeUnder = o.Type().Underlying()
